@@ -4,6 +4,8 @@ import MesonModel.Options.TopLemmas
 import MesonModel.Options.WfOps
 import MesonModel.Options.ParentOps
 import MesonModel.Options.SubLemmas
+import MesonModel.Options.ChangedLemmas
+import MesonModel.Options.ComposeLemmas
 /-
 C07 — option values resolve by the documented precedence and are always valid.
 Statements over the model `MesonModel.Options` (options.py:356-640, 773-1417; cmdline.py:222-241).
@@ -222,6 +224,129 @@ theorem own_value_otherwise (s : Store) (k : Key) (id : Nat) (o : Obj)
   rw [effective_value s k id o hr ho, ha]; simp [hy]
 
 
+/-! ## what the mutating calls report, and what hangs on it
+
+`set_option` returns `changed`; `meson configure` saves only when some call reported a change, and the
+`buildtype` → `debug`/`optimization` expansion runs only then.  So for the property ("the value from the
+highest-priority source is the effective one", the command line of `meson configure` being the latest such source)
+the report must be: *the effective value for that key changed*. -/
+
+/-- **per-project override (`:n` or `sub:n`, only the global option object exists), every store, option class, value,
+prior override `x` and `first_invocation`**: `set_option` completes (the option is not read-only, or this is a first
+invocation), reports `changed` **iff the value the project saw before — its stored override, else the global value —
+differs from the new one**, and afterwards the project sees the new value, whatever the old override was.  Nothing
+else the project or anyone else sees is touched: heap, key table and every other override are as before. -/
+theorem set_override_reports_change_iff_effective_value_changes (s : Store) (ks : Key) (v w : Val) (first : Bool)
+    (id : Nat) (o : Obj) (x : Option Val) (sub : Str) (hm : ks.machine = .host) (hs : ks.sub = some sub)
+    (hn : (ks.name == sPrefix) = false) (hbt : (ks.name == sBuildtype) = false)
+    (g : GoodSub ks id s o x) (hv : validate o.kind v = .ok w) (hro : o.readonly = false ∨ first = true) :
+    ∃ changed s', setOption ks v first s = (.ok changed, s') ∧
+      (changed = true ↔ getValueFor s ks ≠ .ok w) ∧
+      getValueFor s' ks = .ok w ∧
+      s'.heap = s.heap ∧ s'.options = s.options ∧ (∀ k', k' ≠ ks → alookup k' s'.augments = alookup k' s.augments) := by
+  refine ⟨x.getD o.value != w, { s with augments := ainsert ks w s.augments }, ?_, ?_, ?_, rfl, rfl, ?_⟩
+  · rw [setOption_override s ks v w first id o x sub hm hs hn hbt g hv]
+    have hne : (o.readonly && (x.getD o.value != w) && !first) = false := by
+      rcases hro with h | h <;> simp [h]
+    simp only [hne, Bool.false_eq_true, ↓reduceIte]
+  · rw [g.value hm sub hs]
+    by_cases e : x.getD o.value = w <;> simp [e]
+  · exact (g.afterSet w).value hm sub hs
+  · intro k' hk'
+    simp [alookup_ainsert, Ne.symm hk']
+
+/-- a read-only option: the same call outside a first invocation raises exactly when the value would change (after
+the override was written, as in Python: the exception escapes, nothing is rolled back) -/
+theorem set_override_readonly_raises_iff_changed (s : Store) (ks : Key) (v w : Val) (id : Nat) (o : Obj)
+    (x : Option Val) (sub : Str) (hm : ks.machine = .host) (hs : ks.sub = some sub)
+    (hn : (ks.name == sPrefix) = false) (hbt : (ks.name == sBuildtype) = false)
+    (g : GoodSub ks id s o x) (hv : validate o.kind v = .ok w) (hro : o.readonly = true) :
+    (getValueFor s ks = .ok w → (setOption ks v false s).1 = .ok false) ∧
+    (getValueFor s ks ≠ .ok w → (setOption ks v false s).1 = .error .meson) := by
+  rw [setOption_override s ks v w false id o x sub hm hs hn hbt g hv, g.value hm sub hs]
+  by_cases e : x.getD o.value = w <;> simp [e, hro]
+
+/-- the same through `set_user_option` (any `first_invocation`) and through `set_from_configure_command` (what
+`meson configure -Dsub:n=v` runs): `dirty` is reported **iff** the value the project sees changes -/
+theorem configure_override_dirty_iff_effective_value_changes (s : Store) (ks : Key) (v w : Val)
+    (id : Nat) (o : Obj) (x : Option Val) (sub : Str) (hm : ks.machine = .host) (hs : ks.sub = some sub)
+    (hn : (ks.name == sPrefix) = false) (hbt : (ks.name == sBuildtype) = false)
+    (g : GoodSub ks id s o x) (hv : validate o.kind v = .ok w) (hro : o.readonly = false) :
+    ∃ dirty s', setFromConfigure [(ks, some v)] false s = (.ok dirty, s') ∧
+      (dirty = true ↔ getValueFor s ks ≠ .ok w) ∧ getValueFor s' ks = .ok w := by
+  obtain ⟨c, s', h1, h2, h3, _⟩ := set_override_reports_change_iff_effective_value_changes s ks v w false id o x sub hm hs
+    hn hbt g hv (Or.inl hro)
+  refine ⟨c, s', ?_, h2, h3⟩
+  simp [setFromConfigure, configureOne, M.bind, setUserOption_override_eq s ks v false id o x sub hm hs g, h1, M.pure]
+
+/-- **a registered, non-yielding option (global `n`, or a project option under its own key)**, every store, class,
+value and `first_invocation`: `changed` **iff** its effective value changes, and afterwards it is the new value -/
+theorem set_registered_reports_change_iff_effective_value_changes (s : Store) (k : Key) (v w : Val) (first : Bool)
+    (id : Nat) (o : Obj) (hm : k.machine = .host)
+    (hn : (k.name == sPrefix) = false) (hbt : (k.name == sBuildtype) = false)
+    (g : Good k id s o) (hv : validate o.kind v = .ok w) (hro : o.readonly = false ∨ first = true) :
+    ∃ changed s', setOption k v first s = (.ok changed, s') ∧
+      (changed = true ↔ getValueFor s k ≠ .ok w) ∧ getValueFor s' k = .ok w := by
+  refine ⟨o.value != w, _, ?_, ?_, (g.afterSet w).value hm⟩
+  · rw [setOption_existing s k v w first id o hm hn hbt g hv]
+    have hne : (o.readonly && (o.value != w) && !first) = false := by
+      rcases hro with h | h <;> simp [h]
+    simp only [hne, Bool.false_eq_true, ↓reduceIte]
+  · rw [g.value hm]
+    by_cases e : o.value = w <;> simp [e]
+
+/-! ### `buildtype` given again for one project carries that project's `debug`/`optimization`
+
+through the whole state machine on the builtin table: for the top-level project (`:buildtype`) and a subproject
+(`sub:buildtype`), from every prior state — no override, or an override of any buildtype of the table, its dependents
+in place — to every buildtype of the table, in particular **back to the value the global option has**; set through
+`set_option`, `set_user_option` or `set_from_configure_command`. -/
+
+def btAgain (sub : Str) (setter : Fin 3) (old : Option Str) (new : Str) : Option Val × Option Val × Option Val :=
+  let k (n : Str) : Key := ⟨n, some sub, .host⟩
+  let setOp (v : Str) : Op :=
+    match setter.val with
+    | 0 => .setOption (k sBuildtype) (.str v) false
+    | 1 => .setUser (k sBuildtype) (.str v) false
+    | _ => .configure [(k sBuildtype, some (.str v))]
+  let s := run (coreDataInit (Store.new false)).2
+    ((match old with | some b => [setOp b] | none => []) ++ [setOp new])
+  ((getValueFor s (k sBuildtype)).toOption, (getValueFor s (k sDebug)).toOption, (getValueFor s (k sOptimization)).toOption)
+
+theorem buildtype_given_again_carries_dependents :
+    ∀ sub ∈ [[], "sub".toList], ∀ (setter : Fin 3), ∀ old ∈ none :: Tables.defaultDependents.map (fun r => some r.1),
+      ∀ row ∈ Tables.defaultDependents,
+        btAgain sub setter old row.1 = (some (.str row.1), some (.bool row.2.2), some (.str row.2.1)) := by
+  decide +kernel
+
+/-- "`buildtype` sets `debug`/`optimization` unless they are given explicitly" for a **per-project** buildtype on one
+`meson configure` command line, in either textual order … -/
+def configure_buildtype_unless_explicit_full : Prop :=
+  ∀ (sub : Str) (explicitFirst : Bool), sub ∈ [[], "sub".toList] →
+    let k (n : Str) : Key := ⟨n, some sub, .host⟩
+    let a : Key × Option Val := (k sOptimization, some (.str "g".toList))
+    let b : Key × Option Val := (k sBuildtype, some (.str "release".toList))
+    (getValueFor (run (coreDataInit (Store.new false)).2 [.configure (if explicitFirst then [a, b] else [b, a])])
+      (k sOptimization)).toOption = some (.str "g".toList)
+
+/-- … is false of the code (recorded findings `bt-order:configure:*`, `bt-order:setup-cmd:*`): with the explicit
+`sub:optimization=g` listed *before* `sub:buildtype=release` the buildtype expansion overwrites it (`3`); only the
+global `buildtype` is moved to the front (`cmdline.parse_cmd_line_options`), `set_from_configure_command` applies the
+entries in dict order -/
+theorem configure_buildtype_unless_explicit_counterexample : ¬ configure_buildtype_unless_explicit_full := by
+  intro h
+  have := h "sub".toList true (by simp)
+  revert this
+  decide +kernel
+
+/-- the partial form that holds: the explicit dependent listed *after* the per-project buildtype survives -/
+theorem configure_buildtype_unless_explicit_partial : ∀ sub ∈ [[], "sub".toList],
+    let k (n : Str) : Key := ⟨n, some sub, .host⟩
+    (getValueFor (run (coreDataInit (Store.new false)).2
+        [.configure [(k sBuildtype, some (.str "release".toList)), (k sOptimization, some (.str "g".toList))]])
+      (k sOptimization)).toOption = some (.str "g".toList) := by
+  decide +kernel
+
 /-! ## the documented eight-step order for subprojects -/
 
 /-- `subproject_precedence`, merge level, **for arbitrary input dicts**: what `initialize_from_subproject_call`
@@ -356,6 +481,74 @@ theorem subproject_precedence (n sub : Str) (id : Nat) (s s' : Store) (o : Obj) 
     rw [initSub_value ⟨n, some sub, .host⟩ id s s' o x sub spcall pdo cmd mf d rfl rfl hn hbt hdn hnp g hd hother hrun,
       mergeSub_lookup sub n .host s.projectOptions s.pendingSub spcall pdo cmd mf d hd]
 
+/-! ## the two calls composed: the documented eight steps in one statement -/
+
+/-- **`subproject_precedence_composed`**: `initialize_from_top_level_project_call(pdoTop, cmd, mf)` followed by
+`initialize_from_subproject_call(sub, spcall, pdoSub, cmd, mf)` — the same command line and machine files, as meson
+passes them — **for every store, option class, all values and arbitrary dicts**: for a global option `n` (a builtin-like
+option without path sanitisation; `Pair`: no object, project option, override or recorded value under `sub:n` yet), if
+both calls complete, subproject `sub` sees the cleaned value of the **last defined** of the documented sources
+
+    1 parent `default_options` `n` < 2 the subproject's own `default_options` < 3 machine file `n` < 4 command line `n`
+    < 5 parent `default_options` `sub:n` < 6 `subproject(default_options:)` < 7 machine file `sub:n` < 8 command line `sub:n`
+
+else the value the option held before (its declared default).  (Step 2 yields to 3 and 4, which enter through the
+global value together with 1 — `toplevel_precedence`; the entries may be mixed with any other options, valid or not,
+`buildtype`, other subprojects, pending options.)  All 2^8 subsets of the sources are instances. -/
+theorem subproject_precedence_composed (n sub : Str) (id : Nat) (s0 s1 s2 : Store) (o : Obj)
+    (pdoTop cmd mf spcall pdoSub : Dict) (hsub : sub ≠ [])
+    (hn : (n == sPrefix) = false) (hbt : (n == sBuildtype) = false)
+    (hdn : n ≠ sDebug ∧ n ≠ sOptimization)
+    (hnp : (Tables.nopfxTable.map (·.1)).contains n = false)
+    (p : Pair n sub id s0.projectOptions s0 o none)
+    (h1 : NoPrefix pdoTop) (h2 : NoPrefix cmd) (h3 : NoPrefix mf)
+    (hp : ∀ kv ∈ pdoTop, kv.1 = ⟨n, none, .host⟩ ∨ kv.1 = ⟨n, some sub, .host⟩ ∨ kv.1.name ≠ n)
+    (hc : ∀ kv ∈ cmd, kv.1 = ⟨n, none, .host⟩ ∨ kv.1 = ⟨n, some sub, .host⟩ ∨ kv.1.name ≠ n)
+    (hf : ∀ kv ∈ mf, kv.1 = ⟨n, none, .host⟩ ∨ kv.1 = ⟨n, some sub, .host⟩ ∨ kv.1.name ≠ n)
+    (hin : ∀ k ∈ (pdoSub ++ spcall).map Prod.fst, k.name = n → k.machine = .host)
+    (hrun1 : initTop pdoTop cmd mf s0 = (.ok (), s1))
+    (hrun2 : initSub sub spcall pdoSub cmd mf s1 = (.ok (), s2)) :
+    getValueFor s2 ⟨n, some sub, .host⟩ = .ok
+      (match ofirst (alast ⟨n, some sub, .host⟩ cmd)                                    -- 8
+            (ofirst (alast ⟨n, some sub, .host⟩ mf)                                     -- 7
+            (ofirst (alast ⟨n, none, .host⟩ spcall)                                     -- 6
+            (ofirst (alast ⟨n, some sub, .host⟩ pdoTop)                                 -- 5
+            (if ((alast ⟨n, none, .host⟩ cmd).isSome || (alast ⟨n, none, .host⟩ mf).isSome)
+                  && !(s0.projectOptions.contains ⟨n, some [], .host⟩) then none
+             else alast ⟨n, none, .host⟩ pdoSub)))) with                                -- 2, unless 3 or 4 is given
+       | some v => cleaned o.kind v
+       | none =>
+         match ofirst (alast ⟨n, none, .host⟩ cmd)                                      -- 4
+               (ofirst (alast ⟨n, none, .host⟩ mf)                                      -- 3
+               (alast ⟨n, none, .host⟩ pdoTop)) with                                    -- 1
+         | some v => cleaned o.kind v
+         | none => o.value) := by
+  obtain ⟨o1, p1, hk1, hv1⟩ := initTop_pair s0 s1 o none pdoTop cmd mf hsub hn hbt hdn hnp p h1 h2 h3 hp hc hf hrun1
+  have hhost : ∀ (d : Dict), (∀ kv ∈ d, kv.1 = (⟨n, none, .host⟩ : Key) ∨ kv.1 = ⟨n, some sub, .host⟩ ∨ kv.1.name ≠ n) →
+      ∀ k ∈ d.map Prod.fst, k.name = n → k.machine = .host := by
+    intro d hd k hk hkn
+    obtain ⟨kv, hkv, rfl⟩ := List.mem_map.mp hk
+    rcases hd kv hkv with h | h | h
+    · rw [h]
+    · rw [h]
+    · exact absurd hkn h
+  have hin' : ∀ k ∈ (pdoSub ++ spcall ++ s1.pendingSub ++ mf ++ cmd).map Prod.fst, k.name = n → k.machine = .host := by
+    intro k hk hkn
+    simp only [List.map_append, List.mem_append] at hk
+    rcases hk with (((hk | hk) | hk) | hk) | hk
+    · exact hin k (by simp [hk]) hkn
+    · exact hin k (by simp [hk]) hkn
+    · exact p1.pshost k hk hkn
+    · exact hhost mf hf k hk hkn
+    · exact hhost cmd hc k hk hkn
+  rw [subproject_precedence n sub id s1 s2 o1 none spcall pdoSub cmd mf hn hbt hdn hnp p1.goodSub hin' hrun2,
+    alast_eq_alookup _ _ p1.psnd, p1.ps, p1.proj, hk1, hv1]
+  generalize (if ((alast (⟨n, none, .host⟩ : Key) cmd).isSome || (alast (⟨n, none, .host⟩ : Key) mf).isSome)
+      && !(s0.projectOptions.contains ⟨n, some [], .host⟩) then none else alast (⟨n, none, .host⟩ : Key) pdoSub) = e2
+  cases alast (⟨n, some sub, .host⟩ : Key) cmd <;> cases alast (⟨n, some sub, .host⟩ : Key) mf <;>
+    cases alast (⟨n, none, .host⟩ : Key) spcall <;> cases alast (⟨n, some sub, .host⟩ : Key) pdoTop <;>
+    cases e2 <;> first | rfl | simp [ofirst]
+
 /-! ## yielding, generally -/
 
 /-- in **any** store: a yielding subproject option without override whose parent pointer is the current object
@@ -462,6 +655,65 @@ example : GoodSub kSub 0 (run (Store.new false) [.addSystem kOpt comboSpec])
   simp only [alookup] at h
   split at h
   · next e => exact absurd (by rw [← e]; rfl) hn
+  · cases h
+
+/-- `toplevel_precedence` for a **project option declared by the top-level project** (`:n` is the registered
+option; `-Dn=v`, a machine file's `n = v` and `default_options: ['n=v']` address it without subproject), in the
+same generality: every store, every option class, all values, arbitrary dicts (any other options, valid or not,
+`buildtype`, subproject and build-machine keys, pending options; only `prefix` entries and other variants of the same
+name are excluded; `n` is not a compiler/base/backend name, whose values wait as pending options).  If
+`initialize_from_top_level_project_call` completes, `:n` holds the cleaned value of the first source that gives it:
+command line > machine file > `project(default_options)` > what it held before (the declared default). -/
+theorem toplevel_precedence_project_option (n : Str) (id : Nat) (s s' : Store) (o : Obj) (pdo cmd mf : Dict)
+    (hn : (n == sPrefix) = false) (hbt : (n == sBuildtype) = false)
+    (hd : n ≠ sDebug ∧ n ≠ sOptimization)
+    (hnp : (Tables.nopfxTable.map (·.1)).contains n = false)
+    (hpend : acceptAsPending ⟨n, none, .host⟩ true = false)
+    (hg : alookup (⟨n, none, .host⟩ : Key) s.options = none)
+    (g : Good ⟨n, some [], .host⟩ id s o)
+    (h1 : NoPrefix pdo) (h2 : NoPrefix cmd) (h3 : NoPrefix mf)
+    (hp : ∀ kv ∈ pdo, kv.1 = ⟨n, none, .host⟩ ∨ kv.1.name ≠ n)
+    (hc : ∀ kv ∈ cmd, kv.1 = ⟨n, none, .host⟩ ∨ kv.1.name ≠ n)
+    (hf : ∀ kv ∈ mf, kv.1 = ⟨n, none, .host⟩ ∨ kv.1.name ≠ n)
+    (hrun : initTop pdo cmd mf s = (.ok (), s')) :
+    getValueFor s' ⟨n, some [], .host⟩ = .ok
+      (match ofirst (alast ⟨n, none, .host⟩ cmd) (ofirst (alast ⟨n, none, .host⟩ mf) (alast ⟨n, none, .host⟩ pdo)) with
+       | some v => cleaned o.kind v
+       | none => o.value) :=
+  initTop_value_project n id s s' o pdo cmd mf hn hbt hd hnp hpend hg g h1 h2 h3 hp hc hf hrun
+
+/-- the hypotheses of `subproject_precedence_composed` are satisfiable: the store of `subScenario` before the calls -/
+example : Pair "opt".toList "sub".toList 0 (run (Store.new false) [.addSystem kOpt comboSpec]).projectOptions
+    (run (Store.new false) [.addSystem kOpt comboSpec])
+    { kind := comboSpec.kind, value := cval 0, default := cval 0, yielding := false, readonly := false, parent := none }
+    none := by
+  have hps0 : (run (Store.new false) [.addSystem kOpt comboSpec]).pendingSub = [] := by rfl
+  refine ⟨⟨by rfl, by rfl, ?_, by decide, by rfl, rfl⟩, by rfl, rfl, by rfl, by decide, by rfl,
+    by rw [hps0]; simp [NodupKeys], by rfl, ?_⟩
+  · intro key i h hn
+    have hopt : (run (Store.new false) [.addSystem kOpt comboSpec]).options = [(kOpt, 0)] := by rfl
+    rw [hopt] at h
+    simp only [alookup] at h
+    split at h
+    · next e => exact absurd (by rw [← e]; rfl) hn
+    · cases h
+  · intro key hk
+    have hps : (run (Store.new false) [.addSystem kOpt comboSpec]).pendingSub = [] := by rfl
+    rw [hps] at hk
+    simp at hk
+
+/-- the hypotheses of `toplevel_precedence_project_option` are satisfiable: a combo project option `:opt` -/
+example : Good kRoot 0 (run (Store.new false) [.addProject kRoot comboSpec])
+      { kind := comboSpec.kind, value := cval 0, default := cval 0, yielding := false, readonly := false, parent := none } ∧
+    alookup kOpt (run (Store.new false) [.addProject kRoot comboSpec]).options = none ∧
+    acceptAsPending kOpt true = false := by
+  refine ⟨⟨by rfl, by rfl, ?_, by decide, by rfl, rfl⟩, by rfl, by decide⟩
+  intro key i h hn
+  have hopt : (run (Store.new false) [.addProject kRoot comboSpec]).options = [(kRoot, 0)] := by rfl
+  rw [hopt] at h
+  simp only [alookup] at h
+  split at h
+  · next e => exact absurd (by rw [← e]) hn
   · cases h
 
 /-- `toplevel_precedence` on all 2^3 subsets of the three sources (the fourth source, the declared default, is
